@@ -15,6 +15,10 @@ fn main() {
     if args.len() < 2 {
         usage();
     }
+    if args[1] == "child-c06" {
+        // child process of the kill-mode crash check
+        std::process::exit(pvh::props::c06::child_main(args.get(2).map(|s| s.as_str()).unwrap_or("")));
+    }
     let prop = args[1].clone();
     let mut tier = match std::env::var("VERIF_TIER").as_deref() {
         Ok("thorough") => Tier::Thorough,
@@ -89,6 +93,10 @@ fn main() {
             }
         }
     };
-    let _ = std::fs::remove_dir_all(&scratch);
+    if std::env::var("VERIF_KEEP").is_err() {
+        let _ = std::fs::remove_dir_all(&scratch);
+    } else {
+        eprintln!("scratch kept at {}", scratch.display());
+    }
     std::process::exit(code);
 }
